@@ -106,7 +106,7 @@ def run(tier, seed):
         mods = ["tools", "laue"] if (tier == "thorough" or I.get("long") or I.get("pseudo")) else [mod]
         for m in mods:
             kw = dict(sgno=t["no"], cell_choice=t["setting"]) if rng.random() < 0.5 else dict(sgname=t["name_text"])
-            for func, ostl in (("genhkl_unique", True), ("genhkl_unique", False), ("genhkl_all", True)):
+            for func, ostl in (("genhkl_unique", True), ("genhkl_unique", False), ("genhkl_all", True), ("genhkl_all", False)):
                 calls.append((m, func, cell, smin, smax, kw, rng.randrange(1 << 30), ostl))
                 meta.append((i, m, func, ostl, c, kw))
     results = common.pmap(gl.call_gen, calls)
@@ -148,6 +148,12 @@ def run(tier, seed):
         U = rows[("genhkl_unique", True)]
         if rows[("genhkl_unique", False)] != U:
             v.violation("genhkl_unique differs between output_stl=True and False (%s)" % tag, desc)
+        # without the fourth column the rows are the same reflections, in non-decreasing sin(theta)/lambda order as well
+        qa = [Qf(I["met"], h) for h in rows[("genhkl_all", False)]]
+        if collections.Counter(rows[("genhkl_all", False)]) != collections.Counter(rows[("genhkl_all", True)]):
+            v.violation("genhkl_all differs between output_stl=True and False as a set of reflections (%s)" % tag, desc)
+        elif not I.get("pseudo") and any(qa[j] > qa[j + 1] for j in range(len(qa) - 1)):
+            v.violation("genhkl_all(output_stl=False) rows are not in non-decreasing sin(theta)/lambda order (%s)" % tag, desc)
         # ordering and fourth column, both functions
         for k in (("genhkl_unique", True), ("genhkl_all", True)):
             res = d[k][0]
